@@ -54,6 +54,12 @@ def _worker(args):
            "syntactic": 0, "inconclusive": 0, "violated": [], "samples": [], "nontrivial": 0, "decided_branches": 0,
            "functions": [], "reached": {}, "truncated": False, "error": None, "stats": {}, "sched_picks": 0,
            "unmodelled": [], "fn": job["fn"], "params": job.get("params", {})}
+    if job.get("symbolic") is False:
+        # a ground-twin-only member of the family (its symbolic run is known to be undecidable for the solver or outside
+        # what the function abstractions can decide); listed in the evidence as such
+        out["twin_only"] = True
+        out["wall_s"] = 0.0
+        return out
     try:
         from . import api, core, shims
 
@@ -333,7 +339,7 @@ def run_check(prop, tier, seed, nproc=None):
     nproc = nproc or int(os.environ.get("SYMX_NPROC") or 0) or min(16, os.cpu_count() or 4)
     # wall-time sizing of the thorough tier: the per-job budgets are scaled so that the whole check fits the wall budget
     # (jobs that run out of their budget are reported as truncated: the bound of the claim, not a failure)
-    wall_cap = float(os.environ.get("SYMX_WALL_S") or 0) or (2700.0 if tier == "thorough" else 0.0)
+    wall_cap = float(os.environ.get("SYMX_WALL_S") or 0) or (900.0 if tier == "thorough" else 0.0)
     budget_scale = 1.0
     if wall_cap:
         total = sum(j.get("budget_s", 600) for j in jobs)
@@ -457,6 +463,7 @@ def run_check(prop, tier, seed, nproc=None):
             "vacuity_witnesses": reached,
             "stub_validation": stub_report,
             "truncated_jobs": [r["job"] for r in results if r["truncated"]],
+            "ground_twin_only_jobs": [r["job"] for r in results if r.get("twin_only")],
             "ground_twin": {"what": "every job re-run on the unshimmed library in doubles at the mid-point and at seeded random "
                             "points of the input ranges (validation of harness and oracle; not the deciding step)",
                             "runs": twin["runs"], "outside_precondition": twin["outside_precondition"],
